@@ -724,6 +724,13 @@ def _scan_lines(state: TokenizerState, readline: Callable[[], str]) -> Iterator[
             yield from handle_end_progs(state)
             if token := next_psuedo_matches(state):
                 yield token
+            elif pos == state.pos and not state.line[pos].isascii() and state.line[pos].isidentifier():
+                # an identifier start that \w does not cover (U+2118, U+212E, U+1885, U+1886)
+                end = pos + 1
+                while end < state.max and state.line[pos : end + 1].isidentifier():
+                    end += 1
+                yield TokenInfo(Token.NAME, state.line[pos:end], (state.lnum, pos), (state.lnum, end), state.line)
+                state.pos = end
             elif pos == state.pos:
                 yield TokenInfo(
                     Token.ERRORTOKEN,
